@@ -134,7 +134,9 @@ def nodeStep (g : Graph α) (res : α) (acc : St α × α) (i : Nat) : St α × 
 def corePass (g : Graph α) (res : α) (st : St α) : St α × α :=
   (List.range g.n).foldl (nodeStep g res) (st, zero)
 
-/-- `while not stop:`; `none` = fuel exhausted -/
+/-- the loop `while not stop:` without the bound on the number of passes (`none` = fuel exhausted): the reference
+    loop of the termination argument (C17), and what the kernel computes whenever the bound is not reached
+    (`coreCapped_of_coreLoop`) -/
 def coreLoop (g : Graph α) (res tol : α) : Nat → St α → α → Option (St α × α)
   | 0, _, _ => none
   | fuel+1, st, inc =>
@@ -146,6 +148,51 @@ def coreLoop (g : Graph α) (res tol : α) : Nat → St α → α → Option (St
     in_cluster_weights, cluster_weights, self_loops, resolution, tol_optimization)`: labels and increase -/
 def optimizeCore (g : Graph α) (res tol : α) (fuel : Nat) (st : St α) : Option (List Nat × α) :=
   (coreLoop g res tol fuel st zero).map fun r => (r.1.labels, r.2)
+
+/-- `while not stop and n_pass <= n:` — the kernel makes at most `n + 1` passes and then returns what it has
+    (first argument: passes still allowed; last: `increase` so far) -/
+def coreCapped (g : Graph α) (res tol : α) : Nat → St α → α → St α × α
+  | 0, st, inc => (st, inc)
+  | passes+1, st, inc =>
+    let p := corePass g res st
+    let inc' := inc + p.2
+    if le p.2 tol then (p.1, inc') else coreCapped g res tol passes p.1 inc'
+
+/-- `optimize_core(...)` as compiled: labels and increase, after at most `n + 1` passes -/
+def optimizeCoreCapped (g : Graph α) (res tol : α) (st : St α) : List Nat × α :=
+  let r := coreCapped g res tol (g.n + 1) st zero
+  (r.1.labels, r.2)
+
+/-! ### reading the compiled arithmetic: the rational value of a `float` -/
+
+/-- the rational number an IEEE binary32 pattern stands for (`0` for infinities and NaN) -/
+def f32ToRat (x : Float32) : Rat :=
+  let b := x.toBits.toNat
+  let neg := b / 2 ^ 31 % 2 == 1
+  let e := b / 2 ^ 23 % 256
+  let m := b % 2 ^ 23
+  let mant : Nat := 2 ^ 23 + m
+  let pe : Nat := 2 ^ e
+  let p149 : Nat := 2 ^ 149
+  let p150 : Nat := 2 ^ 150
+  let mag : Rat :=
+    if e == 255 then 0
+    else if e == 0 then (m : Rat) / (p149 : Rat)
+    else (mant : Rat) * (pe : Rat) / (p150 : Rat)
+  if neg then -mag else mag
+
+def Graph.mapScalar {β : Type} (f : α → β) (g : Graph α) : Graph β where
+  n := g.n
+  row i := (g.row i).map fun e => (e.1, f e.2)
+  selfLoop i := f (g.selfLoop i)
+  outW i := f (g.outW i)
+  inW i := f (g.inW i)
+
+def St.mapScalar {β : Type} (f : α → β) (st : St α) : St β where
+  labels := st.labels
+  outCl := st.outCl.map f
+  inCl := st.inCl.map f
+  cw := st.cw.map f
 
 /-! ### `optimize_refine_core` -/
 
@@ -287,19 +334,24 @@ def symLevel (n : Nat) (A : Nat → Nat → Rat) (out inn : Nat → Rat) : Level
     rows := tab n fun i => ((List.range n).filter fun j => symm A i j != 0).map fun j => (j, symm A i j / total),
     outW := tab n out, inW := tab n inn }
 
-/-- `Louvain._pre_processing(input_matrix, force_bipartite)` with `shuffle_nodes = False` -/
-def preProcess (kind : Kind) (nRow nCol nnz : Nat) (B : Nat → Nat → Rat) (forceBip : Bool) :
-    Except PyErr Level :=
+/-- `Louvain._pre_processing` after `get_adjacency` (and after the optional shuffle): node weights of the kind,
+    symmetrisation, normalisation; `nnz` = number of stored entries of the input (only `check_format` looks at it) -/
+def preProcessAdj (kind : Kind) (n : Nat) (A : Nat → Nat → Rat) (nnz : Nat) : Except PyErr Level :=
   if nnz == 0 then .error .valueError                       -- check_format
   else
-    let n := (kindAdj kind nRow nCol B forceBip).1
-    let A := (kindAdj kind nRow nCol B forceBip).2
     match kindWeights kind n A with
     | .error e => .error e
     | .ok w =>
-      -- numpy divides by `adjacency.data.sum()` without raising
-      if (sumTo n fun i => sumTo n (symm A i)) == 0 then .error .nonFinite
+      -- numpy divides the stored sums by `adjacency.data.sum()` without raising; when every sum cancelled nothing
+      -- is stored and nothing is divided (the fit then returns the singletons)
+      if (sumTo n fun i => sumTo n (symm A i)) == 0 &&
+          (List.range n).any (fun i => (List.range n).any fun j => symm A i j != 0) then .error .nonFinite
       else .ok (symLevel n A w.1 w.2)
+
+/-- `Louvain._pre_processing(input_matrix, force_bipartite)` with `shuffle_nodes = False` -/
+def preProcess (kind : Kind) (nRow nCol nnz : Nat) (B : Nat → Nat → Rat) (forceBip : Bool) :
+    Except PyErr Level :=
+  preProcessAdj kind (kindAdj kind nRow nCol B forceBip).1 (kindAdj kind nRow nCol B forceBip).2 nnz
 
 /-- `np.unique(labels, return_inverse=True)[1]` -/
 def uniqueInverse (labels : List Nat) : List Nat :=
@@ -326,16 +378,19 @@ def aggRow (labels : List Nat) (rows : List (List (Nat × Rat))) (a : Nat) : Lis
 def aggVec (labels : List Nat) (w : List Rat) (a : Nat) : Rat :=
   (List.range w.length).foldl (fun acc i => if labels.getD i 0 == a then acc + w.getD i 0 else acc) 0
 
-/-- `Louvain._aggregate(labels, adjacency, out_weights, in_weights)` for compact `labels` -/
+/-- `Louvain._aggregate(labels, adjacency, out_weights, in_weights)` for compact `labels`
+    (scipy's sparse product stores only the non-zero block sums) -/
 def aggregate (labels : List Nat) (lv : Level) : Level :=
   let k := nLabels labels
-  { n := k, rows := tab k (aggRow labels lv.rows), outW := tab k (aggVec labels lv.outW),
+  { n := k, rows := tab k (fun a => (aggRow labels lv.rows a).filter (·.2 != 0)), outW := tab k (aggVec labels lv.outW),
     inW := tab k (aggVec labels lv.inW) }
 
 /-- singletons: `np.arange(n)` -/
 def arange (n : Nat) : List Nat := List.range n
 
-/-- `Louvain._optimize(labels, ...)` : fresh copies of the weights, zero scratch -/
+/-- `Louvain._optimize(labels, ...)` : fresh copies of the weights, zero scratch — with the loop of the kernel
+    *without* its bound on the passes (`louvainOptimize`, `louvainLoop`, `louvainFit`: the reference chain of C17's
+    termination theorems; the compiled behaviour is the `…Capped` chain below) -/
 def louvainOptimize (lv : Level) (res tolOpt : Rat) (fuel : Nat) (labels : List Nat) :
     Option (List Nat × Rat) :=
   optimizeCore lv.graph res tolOpt fuel
@@ -371,15 +426,65 @@ def louvainFit (kind : Kind) (res tolOpt tolAgg : Rat) (nAgg : Int) (nRow nCol n
   | .error e => .error e
   | .ok lv => .ok (louvainLoop res tolOpt tolAgg nAgg coreFuel (lv.n + 1) 0 lv (arange lv.n) [])
 
+/-! ### the fits as compiled now: both kernels bound their passes (`n + 1`) -/
+
+/-- `Louvain._optimize(labels, ...)` with the kernel's own bound on the passes (always returns) -/
+def louvainOptimizeCapped (lv : Level) (res tolOpt : Rat) (labels : List Nat) : Option (List Nat × Rat) :=
+  some (optimizeCoreCapped lv.graph res tolOpt
+    { labels := labels, outCl := lv.outW, inCl := lv.inW, cw := tab lv.n fun _ => 0 })
+
+/-- the `while not stop:` loop of `Louvain.fit`; `memb` maps an original node to its current node -/
+def louvainLoopCapped (res tolOpt tolAgg : Rat) (nAgg : Int) :
+    Nat → Nat → Level → List Nat → List Rat → Option FitOut
+  | 0, _, _, _, _ => none
+  | fuel+1, count, lv, memb, incs =>
+    let count := count + 1
+    match louvainOptimizeCapped lv res tolOpt (arange lv.n) with
+    | none => none
+    | some (labels, inc) =>
+      let labels := uniqueInverse labels
+      let lv' := aggregate labels lv
+      let memb := memb.map fun x => labels.getD x 0
+      let stop := lv'.n == 1 || decide (inc ≤ tolAgg) || decide ((count : Int) = nAgg)
+      if stop then some { labels := memb, increases := incs ++ [inc] }
+      else louvainLoopCapped res tolOpt tolAgg nAgg fuel count lv' memb (incs ++ [inc])
+
+/-- `Louvain.fit` on the adjacency `A` of `n` nodes that `get_adjacency` (and the optional shuffle) produced -/
+def louvainFitAdj (kind : Kind) (res tolOpt tolAgg : Rat) (nAgg : Int) (n : Nat) (A : Nat → Nat → Rat) (nnz : Nat) :
+    Except PyErr (Option FitOut) :=
+  match preProcessAdj kind n A nnz with
+  | .error e => .error e
+  | .ok lv => .ok (louvainLoopCapped res tolOpt tolAgg nAgg (lv.n + 1) 0 lv (arange lv.n) [])
+
+/-- `Louvain.fit(input_matrix, force_bipartite)` with `shuffle_nodes=False, sort_clusters=False` -/
+def louvainFitCapped (kind : Kind) (res tolOpt tolAgg : Rat) (nAgg : Int) (nRow nCol nnz : Nat)
+    (B : Nat → Nat → Rat) (forceBip : Bool) : Except PyErr (Option FitOut) :=
+  louvainFitAdj kind res tolOpt tolAgg nAgg (kindAdj kind nRow nCol B forceBip).1
+    (kindAdj kind nRow nCol B forceBip).2 nnz
+
+/-- `adjacency[index][:, index]`: new node `k` is old node `index[k]` -/
+def shuffleAdj (index : List Nat) (A : Nat → Nat → Rat) (a b : Nat) : Rat := A (index.getD a 0) (index.getD b 0)
+
+/-- `labels[reverse]` with `reverse[index] = arange`: old node `v` gets the label of new node `index.idxOf v` -/
+def unshuffle (index labels : List Nat) : List Nat := tab index.length fun v => labels.getD (index.idxOf v) 0
+
+/-- `Louvain.fit` with `shuffle_nodes=True, sort_clusters=False`: `index` = the permutation the random state drew -/
+def louvainFitShuffled (kind : Kind) (res tolOpt tolAgg : Rat) (nAgg : Int) (nRow nCol nnz : Nat)
+    (B : Nat → Nat → Rat) (forceBip : Bool) (index : List Nat) : Except PyErr (Option FitOut) :=
+  match louvainFitAdj kind res tolOpt tolAgg nAgg (kindAdj kind nRow nCol B forceBip).1
+      (shuffleAdj index (kindAdj kind nRow nCol B forceBip).2) nnz with
+  | .error e => .error e
+  | .ok none => .ok none
+  | .ok (some out) => .ok (some { labels := unshuffle index out.labels, increases := out.increases })
+
 /-! ### Leiden -/
 
 /-- `Leiden._optimize`: cluster weights are `membership.T.dot(weights)` of the incoming labels -/
-def leidenOptimize (lv : Level) (res tolOpt : Rat) (fuel : Nat) (labels : List Nat) :
-    Option (List Nat × Rat) :=
+def leidenOptimize (lv : Level) (res tolOpt : Rat) (labels : List Nat) : Option (List Nat × Rat) :=
   let k := nLabels labels
-  optimizeCore lv.graph res tolOpt fuel
+  some (optimizeCoreCapped lv.graph res tolOpt
     { labels := labels, outCl := tab k (aggVec labels lv.outW), inCl := tab k (aggVec labels lv.inW),
-      cw := tab k fun _ => 0 }
+      cw := tab k fun _ => 0 })
 
 /-- `Leiden._optimize_refine(labels, arange, ...)` -/
 def leidenRefine (lv : Level) (res : Rat) (fuel : Nat) (labels : List Nat) (rands : List Nat) :
@@ -398,16 +503,18 @@ def refinedToLabels (labels refined : List Nat) : List Nat :=
 def aggregateRefine (labels refined : List Nat) (lv : Level) : List Nat × Level :=
   (refinedToLabels labels refined, aggregate refined lv)
 
-def leidenLoop (res tolOpt tolAgg : Rat) (nAgg : Int) (coreFuel : Nat) :
+/-- the `while not stop:` loop of `Leiden.fit` (first argument: rounds the model allows, `none` when exhausted —
+    the code has no such limit) -/
+def leidenLoop (res tolOpt tolAgg : Rat) (nAgg : Int) :
     Nat → Nat → Level → List Nat → List Nat → List Rat → List (List Nat) → Option FitOut
   | 0, _, _, _, _, _, _ => none
   | fuel+1, count, lv, labels, memb, incs, rands =>
     let count := count + 1
-    match leidenOptimize lv res tolOpt coreFuel labels with
+    match leidenOptimize lv res tolOpt labels with
     | none => none
     | some (labels, inc) =>
       let labels := uniqueInverse labels
-      match leidenRefine lv res coreFuel labels (rands.headD []) with
+      match leidenRefine lv res 0 labels (rands.headD []) with
       | none => none
       | some (refined, _) =>
         let refined := uniqueInverse refined
@@ -416,17 +523,18 @@ def leidenLoop (res tolOpt tolAgg : Rat) (nAgg : Int) (coreFuel : Nat) :
         if stop then
           some { labels := memb.map fun x => labels.getD x 0, increases := incs ++ [inc] }
         else
-          leidenLoop res tolOpt tolAgg nAgg coreFuel fuel count ar.2 ar.1
+          leidenLoop res tolOpt tolAgg nAgg fuel count ar.2 ar.1
             (memb.map fun x => refined.getD x 0) (incs ++ [inc]) rands.tail
 
-/-- `Leiden.fit`, same conventions as `louvainFit`; `rands` = for every aggregation the successive values of
-    `rand()` inside `optimize_refine_core` (which `Leiden.fit` re-seeds at every aggregation) -/
+/-- `Leiden.fit`, same conventions as `louvainFitCapped`; `rands` = for every aggregation the successive values of
+    `rand()` inside `optimize_refine_core` (which `Leiden.fit` re-seeds at every aggregation); `outerFuel` = number of
+    aggregations the model allows (`.ok none` beyond it; no bound in terms of `n` is known for Leiden's outer loop) -/
 def leidenFit (kind : Kind) (res tolOpt tolAgg : Rat) (nAgg : Int) (nRow nCol nnz : Nat)
-    (B : Nat → Nat → Rat) (forceBip : Bool) (coreFuel : Nat) (rands : List (List Nat)) :
+    (B : Nat → Nat → Rat) (forceBip : Bool) (outerFuel : Nat) (rands : List (List Nat)) :
     Except PyErr (Option FitOut) :=
   match preProcess kind nRow nCol nnz B forceBip with
   | .error e => .error e
   | .ok lv =>
-    .ok (leidenLoop res tolOpt tolAgg nAgg coreFuel (4 * lv.n + 16) 0 lv (arange lv.n) (arange lv.n) [] rands)
+    .ok (leidenLoop res tolOpt tolAgg nAgg outerFuel 0 lv (arange lv.n) (arange lv.n) [] rands)
 
 end SkNet.Modularity
